@@ -5,6 +5,7 @@ from ..model import (AnalysisError, FUNC_TYPES, U, call_attr, call_name, dotted,
 from ..cfg import CFG
 from ..util import params, find_calls, stmt_of, has_exit, syn_dominates, assigns_to
 from ..posflow import facts_of
+from .. import feat
 
 PS = "insights.parsr"
 CORE = ["Sequence", "Lift", "Choice", "Many", "Until", "FollowedBy", "NotFollowedBy", "KeepLeft", "KeepRight", "Opt", "Map",
@@ -514,6 +515,23 @@ def r4_json(cx):
     cx.require(ok, ld, "loads returns the value (first element of Top's sequence)", construct=short(rets[0]) if rets else "?")
 
 
+def r4b_numbers(cx):
+    """A whole-number literal is converted from its text by int(); a detour through float() is exact only below 2**53."""
+    cx.rule("C19.R4", "JSON grammar shape", floor=5)
+    pm = cx.repo.module("insights.parsr")
+    if not pm.has("_make_number"):
+        cx.unknown(pm.tree.body[0], "the number builder _make_number of insights.parsr is gone")
+        return
+    fn = pm.get("_make_number")
+    region = feat.region(pm, fn)
+    ints = [c for f in region for c in find_calls(f.body, name="int")]
+    floats = [c for f in region for c in find_calls(f.body, name="float")]
+    cx.require(bool(ints) and bool(floats), fn, "the number builder produces int for whole literals and float for fractional ones", construct="int x%d, float x%d" % (len(ints), len(floats)))
+    for c in ints:
+        via = bool(c.args) and feat.flows_from(c.args[0], fn, lambda n: isinstance(n, ast.Call) and call_name(n) == "float")
+        cx.require(not via, c, "a whole-number literal is converted from its text, not through float (exact above 2**53)", construct=short(c, 80))
+
+
 INPLACE = {ast.BitOr: "Choice", ast.Add: "Sequence", ast.Mult: "Lift"}
 
 
@@ -601,5 +619,6 @@ def run(cx):
     cx.guard(r2b_stateless_parsers)
     cx.guard(r3_taglang)
     cx.guard(r4_json)
+    cx.guard(r4b_numbers)
     cx.guard(r5_no_shared_extension)
     cx.guard(r6_fresh_results)
